@@ -170,6 +170,8 @@ def construct(name, setname, a, phase, data="auto"):
     elif phase == "ata" and "#datalen" in a:
         passed = pattern(a["#datalen"], salt=5)
         kw["data"] = passed
+    elif phase == "ata" and (kw.get("lba", 0) + kw.get("count", 0)) % 3 == 0:
+        kw["data"] = bytearray()          # an empty data argument means the same as none: buffers as the CDB says
     try:
         cmd = K(op, **kw)
     except Exception as ex:                 # refusal or defect: judged by the spec
